@@ -56,6 +56,10 @@ pub tracked struct World {
     pub ghost host_woken: bool,      // the waker the command's host registered (AtomicWaker) has been woken
     pub ghost p_polls: nat,          // how many times Command::run_task has polled a task's future
     pub ghost aborted_tasks: Set<int>, // identities of tasks whose own abort flag (JoinHandle::abort) is set
+    // ---- what the command hosted by the core's forwarding task (CommandSpawner) has yielded to it
+    pub ghost y_events: Seq<int>,    // events yielded by `command.next()`, oldest first
+    pub ghost y_effects: Seq<int>,   // effects yielded by `command.next()`, oldest first
+    pub ghost y_ended: bool,         // `command.next()` has returned None
 }
 
 /// identity of a value travelling through a channel (uninterpreted: only equality matters)
@@ -499,6 +503,31 @@ impl QueuingExecutor {
 //@rule X2.vis 1 s/\n(\s+)future_sender:/\n\1pub future_sender:/
 //@end
 
+/// `future.boxed()` (futures::FutureExt): the same future, boxed and pinned
+#[verifier::external_body]
+pub fn boxed<F>(future: F) -> BoxFuture { unimplemented!() }
+
+impl Clone for Spawner {
+    // ASSUMED: derive(Clone) (dropped with the attributes, X2) clones the crossbeam sender: the same channel
+    #[verifier::external_body]
+    fn clone(&self) -> (r: Self)
+        ensures r == *self,
+    { unimplemented!() }
+}
+
+impl Spawner {
+//@extract id=Spawner::spawn file=crux_core/src/capability/executor.rs within="impl Spawner" item="fn spawn" props=C01
+//@expect pub fn spawn(&self, future: impl Future<Output = ()> + 'static + Send)
+//@sig pub fn spawn<F>(&self, Tracked(w): Tracked<&mut World>, future: F)
+//@contract
+        requires
+            self.future_sender.role() is Spawn,
+        ensures
+            *final(w) == (World { spawn: old(w).spawn + 1, ..*old(w) }), // [C01/Spawner::spawn/the-future-is-queued-exactly-once-on-the-executors-spawn-queue]
+//@rule X5.boxed 1 s/future\.boxed\(\)/boxed(future)/
+//@end
+}
+
 //@extract id=executor_and_spawner file=crux_core/src/capability/executor.rs item="fn executor_and_spawner" props=C01
 //@expect pub(crate) fn executor_and_spawner() -> (QueuingExecutor, Spawner)
 //@sig pub fn executor_and_spawner() -> (r: (QueuingExecutor, Spawner))
@@ -609,6 +638,16 @@ pub mod channel {
 //@rule X2.vis 1 s/\binner:/pub inner:/
 //@end
 
+    impl<T> Clone for Sender<T> {
+//@extract id=channel::Sender::clone file=crux_core/src/capability/channel.rs within="impl<T> Clone for Sender<T>" item="fn clone" props=C01
+//@expect fn clone(&self) -> Self
+//@sig fn clone(&self) -> (r: Self)
+//@contract
+            ensures
+                r.inner == self.inner, // [C01/channel::Sender::clone/a-clone-sends-into-the-same-channel]
+//@end
+    }
+
     impl<T> Sender<T> {
 //@extract id=channel::Sender::send file=crux_core/src/capability/channel.rs within="impl<T> Sender<T>" item="fn send" props=C01+C03
 //@expect pub fn send(&self, t: T)
@@ -711,20 +750,118 @@ pub mod core_m {
     #[verifier::accept_recursive_types(Effect)]
     #[verifier::accept_recursive_types(Event)]
     pub struct Command<Effect, Event> { _p: core::marker::PhantomData<(Effect, Event)> }
-    #[verifier::external_body]
-    #[verifier::accept_recursive_types(Effect)]
-    #[verifier::accept_recursive_types(Event)]
-    pub struct CommandSpawner<Effect, Event> { _p: core::marker::PhantomData<(Effect, Event)> }
-    impl<Effect, Event> CommandSpawner<Effect, Event> {
-        // ASSUMED: capability/mod.rs:461-479 boxes an async forwarding loop and sends it to the
-        // executor's spawn queue (async block: outside Verus). That the loop forwards every
-        // CommandOutput is NOT decided here.
+    impl<Effect, Event> Command<Effect, Event> {
+        // X17: `command.next().await` - StreamExt::next polls Command::poll_next (proved in command_m)
+        // until it is Ready. ASSUMED: the value is logged as yielded; running the hosted command's
+        // tasks touches the core's own queues only through the forwarding loop below (a legacy
+        // capability used inside a command task would append to them directly: not modelled here).
         #[verifier::external_body]
-        pub fn spawn(&self, Tracked(w): Tracked<&mut World>, command: Command<Effect, Event>)
+        pub fn next(&mut self, Tracked(w): Tracked<&mut World>) -> (r: Option<CommandOutput<Effect, Event>>)
             ensures
-                *final(w) == (World { spawn: old(w).spawn + 1, ..*old(w) }),
+                core_queues_eq(*old(w), *final(w)),
+                old(w).y_events.is_prefix_of(final(w).y_events) && old(w).y_effects.is_prefix_of(final(w).y_effects),
+                r matches Some(CommandOutput::Event(e)) ==> final(w).y_events == old(w).y_events.push(val_id(e)) && final(w).y_effects == old(w).y_effects && final(w).y_ended == old(w).y_ended,
+                r matches Some(CommandOutput::Effect(f)) ==> final(w).y_effects == old(w).y_effects.push(val_id(f)) && final(w).y_events == old(w).y_events && final(w).y_ended == old(w).y_ended,
+                r is None ==> final(w).y_events == old(w).y_events && final(w).y_effects == old(w).y_effects && final(w).y_ended,
+        { unimplemented!() }
+        // ASSUMED: reads the hosted command's abort flag (proved in command_m: Command::was_aborted)
+        #[verifier::external_body]
+        pub fn was_aborted(&self, Tracked(w): Tracked<&mut World>) -> (r: bool)
+            ensures *final(w) == *old(w),
         { unimplemented!() }
     }
+    pub enum CommandOutput<Effect, Event> { Effect(Effect), Event(Event) }
+    pub open spec fn core_queues_eq(w1: World, w2: World) -> bool {
+        w1.spawn == w2.spawn && w1.ready == w2.ready && w1.events == w2.events && w1.effects == w2.effects
+        && w1.applied == w2.applied && w1.model_locked == w2.model_locked
+    }
+    /// X17: an `async move { .. }` block as a value: the future that will run it
+    #[verifier::external_body]
+    pub struct OpaqueFuture { _p: u8 }
+    #[verifier::external_body]
+    pub fn opaque_future() -> OpaqueFuture { unimplemented!() }
+
+//@extract id=cap.ProtoContext file=crux_core/src/capability/mod.rs item="struct ProtoContext"
+//@contract
+    #[verifier::reject_recursive_types(Eff)]
+    #[verifier::reject_recursive_types(Event)]
+//@rule X2.vis * s/\n(\s+)(shell_channel|app_channel|spawner):/\n\1pub \2:/
+//@rule X11.module-path 1 s/executor::Spawner/Spawner/
+//@end
+    impl<Eff, Event> Clone for ProtoContext<Eff, Event> {
+//@extract id=ProtoContext::clone file=crux_core/src/capability/mod.rs within="impl<Eff, Event> Clone for ProtoContext<Eff, Event>" item="fn clone" props=C01
+//@expect fn clone(&self) -> Self
+//@sig fn clone(&self) -> (r: Self)
+//@contract
+            ensures
+                r.shell_channel.inner == self.shell_channel.inner && r.app_channel.inner == self.app_channel.inner && r.spawner == self.spawner, // [C01/ProtoContext::clone/a-clone-talks-to-the-same-channels-and-executor]
+//@end
+    }
+//@extract id=cap.CommandSpawner file=crux_core/src/capability/mod.rs item="struct CommandSpawner"
+//@contract
+    #[verifier::reject_recursive_types(Effect)]
+    #[verifier::reject_recursive_types(Event)]
+//@rule X2.vis 1 s/^pub\(crate\) struct/pub struct/
+//@rule X2.vis 1 s/\n(\s+)context:/\n\1pub context:/
+//@end
+
+    impl<Effect, Event> CommandSpawner<Effect, Event> {
+        /// the forwarder's two channels are the core's own effect and event queues and its
+        /// spawner feeds the core's executor (established by Core::new)
+        pub open spec fn wf(&self) -> bool {
+            &&& self.context.spawner.future_sender.role() is Spawn
+            &&& forall|e: Effect| #![auto] self.context.shell_channel.inner.accepts(e)
+            &&& forall|e: Event| #![auto] self.context.app_channel.inner.accepts(e)
+            &&& forall|e: Effect, w1: World, w2: World| #![auto] self.context.shell_channel.inner.effect(e, w1, w2) == pushed(w1, w2, Role::Effects, val_id(e))
+            &&& forall|e: Event, w1: World, w2: World| #![auto] self.context.app_channel.inner.effect(e, w1, w2) == pushed(w1, w2, Role::Events, val_id(e))
+        }
+
+        // View 1 (what process_event / process rely on): the async block as an opaque future value
+//@extract id=CommandSpawner::spawn file=crux_core/src/capability/mod.rs within="impl<Effect, Event> CommandSpawner<Effect, Event>" item="fn spawn" props=C01
+//@expect pub(crate) fn spawn(&self, mut command: Command<Effect, Event>) where Command<Effect, Event>: Stream<Item = CommandOutput<Effect, Event>>, Effect: Unpin + Send + 'static, Event: Unpin + Send + 'static,
+//@sig pub fn spawn(&self, Tracked(w): Tracked<&mut World>, mut command: Command<Effect, Event>)
+//@contract
+            requires
+                self.wf(),
+            ensures
+                *final(w) == (World { spawn: old(w).spawn + 1, ..*old(w) }), // [C01/CommandSpawner::spawn/exactly-one-forwarding-task-is-queued-on-the-cores-executor]
+//@rule X17.async-opaque 1 block#async move #opaque_future()#
+//@rule X6.world 1 s/\.spawner\.spawn\(/.spawner.spawn(Tracked(w), /
+//@end
+
+        // View 2 (rule X17): the body of that task, read as the loop it runs when polled to its end
+//@extract id=CommandSpawner::spawn[task-body] file=crux_core/src/capability/mod.rs within="impl<Effect, Event> CommandSpawner<Effect, Event>" item="fn spawn" props=C01+C03
+//@expect pub(crate) fn spawn(&self, mut command: Command<Effect, Event>) where Command<Effect, Event>: Stream<Item = CommandOutput<Effect, Event>>, Effect: Unpin + Send + 'static, Event: Unpin + Send + 'static,
+//@sig pub fn spawn__task_body(&self, Tracked(w): Tracked<&mut World>, mut command: Command<Effect, Event>)
+//@attr #[verifier::exec_allows_no_decreases_clause]
+//@contract
+            requires
+                self.wf(),
+            ensures
+                final(w).y_ended, // [C01/forwarder/runs-until-the-command-has-ended]
+                old(w).y_events.is_prefix_of(final(w).y_events) && final(w).events == old(w).events + final(w).y_events.subrange(old(w).y_events.len() as int, final(w).y_events.len() as int), // [C01+C03/forwarder/every-event-the-command-yields-reaches-the-cores-event-queue-exactly-once-in-order]
+                old(w).y_effects.is_prefix_of(final(w).y_effects) && final(w).effects == old(w).effects + final(w).y_effects.subrange(old(w).y_effects.len() as int, final(w).y_effects.len() as int), // [C01/forwarder/every-effect-the-command-yields-reaches-the-cores-effect-queue-exactly-once-in-order]
+                final(w).spawn == old(w).spawn && final(w).ready == old(w).ready && final(w).applied == old(w).applied && final(w).model_locked == old(w).model_locked, // [C01/forwarder/touches-nothing-else-of-the-core]
+//@rule X17.await * s/\s*\.await\b//
+//@rule X17.async-block 1 s/async move \{/{/
+//@rule X17.spawn-projected 1 s/self\.context\.spawner\.spawn\(/spawn_projected(/
+//@rule X6.world * s/command\.next\(\)/command.next(Tracked(w))/
+//@rule X6.world * s/\.was_aborted\(\)/.was_aborted(Tracked(w))/
+//@loops 1
+//@loop 1
+                    invariant
+                        context.shell_channel.inner == self.context.shell_channel.inner && context.app_channel.inner == self.context.app_channel.inner,
+                        self.wf(),
+                        old(w).y_events.is_prefix_of(w.y_events) && w.events == old(w).events + w.y_events.subrange(old(w).y_events.len() as int, w.y_events.len() as int), // [C01+C03/forwarder/loop/events-forwarded-so-far-are-exactly-the-events-yielded-so-far]
+                        old(w).y_effects.is_prefix_of(w.y_effects) && w.effects == old(w).effects + w.y_effects.subrange(old(w).y_effects.len() as int, w.y_effects.len() as int), // [C01/forwarder/loop/effects-forwarded-so-far-are-exactly-the-effects-yielded-so-far]
+                        w.spawn == old(w).spawn && w.ready == old(w).ready && w.applied == old(w).applied && w.model_locked == old(w).model_locked,
+                    ensures
+                        w.y_ended,
+//@end
+    }
+    /// X17: the task handed to the executor has, in the projection, already run to its end
+    pub fn spawn_projected(_task: ()) {}
+
     pub trait Operation { type Output; }
     #[verifier::external_body]
     #[verifier::accept_recursive_types(Op)]
@@ -817,6 +954,7 @@ pub mod core_m {
         /// (established by Core::new)
         pub closed spec fn wf(&self) -> bool {
             self.requests.inner.role() is Effects && self.capability_events.inner.role() is Events && self.executor.wf()
+            && self.command_spawner.wf()
         }
         /// between calls no task is being polled (sequential reading; see QueuingExecutor::idle)
         pub closed spec fn idle(&self) -> bool { self.executor.idle() }
